@@ -43,7 +43,7 @@ func nextIOID() uint32 { ioIDs.Lock(); defer ioIDs.Unlock(); ioIDs.n++; return 9
 
 func runInteropCase(c ioCase, bin, tmp string) map[string]interface{} {
 	out := map[string]interface{}{"panic": false, "hang": false, "start_ok": false, "first_use_ok": false, "err_is_mux": false, "pid_gone": false,
-		"protocol": "", "call_ok": false, "ping_ok": false, "large_ok": false, "callback_h2p_ok": false, "callback_p2h_ok": false, "unknown_name_err": false, "unserved_name_err": false}
+		"protocol": "", "call_ok": false, "ping_ok": false, "large_ok": false, "callback_h2p_ok": false, "callback_p2h_ok": false, "unknown_name_err": false, "unserved_name_err": false, "callback_h2p_sec": "", "callback_p2h_sec": ""}
 	cell := c.Cell
 	cert, key, _ := vp.StaticTLS()
 	pc := &vp.PluginCfg{LegacyVersion: 1, Legacy: &vp.SetCfg{Proto: cell.Proto, Tag: "1"}, GRPCServer: cell.Proto == "grpc", CertPEM: cert, KeyPEM: key}
@@ -164,12 +164,17 @@ func runInteropCase(c ioCase, bin, tmp string) map[string]interface{} {
 		stub.DoCtx(ctx, vp.Cmd{Op: "serve", ID: id1, S: strconv.Itoa(int(id1))})
 		tag, err := stub.Broker.DialWho(id1)
 		out["callback_h2p_ok"] = err == nil && tag == strconv.Itoa(int(id1))
+		out["callback_h2p_sec"] = vp.SecOf(id1)
 		if err != nil {
 			out["h2p_err"] = truncate(err.Error(), 160)
 		}
 		stub.Broker.ServeWho(id2, strconv.Itoa(int(id2)))
 		r2, err := stub.DoCtx(ctx, vp.Cmd{Op: "dial", ID: id2})
 		out["callback_p2h_ok"] = err == nil && r2.S == strconv.Itoa(int(id2))
+		out["callback_p2h_sec"] = ""
+		if len(r2.L) > 0 {
+			out["callback_p2h_sec"] = r2.L[0]
+		}
 		if err != nil {
 			out["p2h_err"] = truncate(err.Error(), 160)
 		}
